@@ -176,6 +176,12 @@ func buildFixtures(seed uint64) *Fix {
 			}
 		}
 	}
+	// degenerate inputs: zero-length signature, all-zero public keys
+	f.XSig = append(f.XSig, xsig{2, 0, []byte{}})
+	f.XPK = append(f.XPK, [xmss.ExtendedPKSize]uint8{})
+	f.XSig = append(f.XSig, xsig{0, len(f.XPK) - 1, f.XSig[0].sig})
+	f.DilPK = append(f.DilPK, [dilithium.CryptoPublicKeyBytes]uint8{})
+	f.DSig = append(f.DSig, dsig{0, len(f.DilPK) - 1, f.DSig[0].sig})
 	f.XSigW = map[uint32][]byte{}
 	for _, wk := range [][2]uint32{{4, 133 * 32}, {256, 34 * 32}} {
 		b := make([]byte, 4+32+int(wk[1])+4*32)
